@@ -244,6 +244,13 @@ def block_means(nyx, b):
     return v.mean(axis=(2, 4)), np.abs(v).max(axis=(2, 4))
 
 
+def block_sums_exact(nyx, b):
+    """int64 sums over the complete b x b blocks (exact for integer stacks)"""
+    n, H, W = nyx.shape
+    hb, wb = H // b, W // b
+    return nyx[:, :hb * b, :wb * b].astype(np.int64).reshape(n, hb, b, wb, b).sum(axis=(2, 4))
+
+
 def bin_tolerance(dtype, block_absmax):
     if np.dtype(dtype).kind in "iu":
         return np.full(block_absmax.shape, 1.0)              # integer stacks: within 1 of the mean (any rounding mode)
@@ -286,4 +293,21 @@ def diff_binned(got, nyx_in, b):
     n, hb, wb = means.shape
     if got.shape[0] != n or got.shape[1] < hb or got.shape[2] < wb:
         return {"what": "shape (n,y,x)", "got": list(got.shape), "expected_at_least": [n, hb, wb]}
-    return diff_tol(got[:, :hb, :wb], means, bin_tolerance(nyx_in.dtype, amax))
+    tol = bin_tolerance(nyx_in.dtype, amax)
+    if nyx_in.dtype.kind in "iu":
+        # exact integer arithmetic: where the block sum is a multiple of b*b the mean IS an integer and every rounding mode
+        # (truncate, floor, round) must return exactly that integer; the tolerance of 1 stays for fractional means only
+        sums = block_sums_exact(nyx_in, b)
+        integral = sums % (b * b) == 0
+        means = np.where(integral, (sums // (b * b)).astype(np.float64), means)
+        tol = np.where(integral, 0.0, tol)
+    w = diff_tol(got[:, :hb, :wb], means, tol)
+    if w is not None and w["tolerance"] == 0.0:
+        w["what"] = "block mean (the exact mean is an integer: result must equal it)"
+    if w is not None and nyx_in.dtype.kind == "f":
+        # mechanism note for the witness: all deviations inside the a-priori bound of a plain (non-pairwise) float32 accumulation
+        # of b*b values, b*b * 2**-24 * max|block| (the defect repaired in /repo: bin now accumulates in float64)
+        d = np.abs(np.asarray(got[:, :hb, :wb], dtype=np.float64) - means)
+        if bool(np.all(d <= np.maximum(tol, b * b * 2.0 ** -24 * amax + 1e-37))):
+            w["mechanism"] = "float32 accumulation error: within b*b*2^-24*max|block|, beyond 1e-5*max|block|"
+    return w
